@@ -49,7 +49,7 @@ SPEC = {
         "description of SELECT * are read and compared with a model: exactly the existing user objects, with type names, precision/scale, "
         "declared VARCHAR lengths, nullability, column order and comments as most recently declared. Sampling, not proof."
     ),
-    "level_note": "Trusted: the metadata model and its type table (13 declared types); key_sequence of composite keys and DESCRIBE VIEW are not checked.",
+    "level_note": "Trusted: the metadata model and its type table (13 declared types); key_sequence of composite keys is not checked; DESCRIBE VIEW is checked for column names, order and type (a declared VARCHAR length is not demanded of a view).",
     "rule": (
         "one evaluation = one seeded DDL history (6-28 steps) with an observer pass after each step; non-trivial = the history contains a DROP, "
         "REPLACE, ALTER, CTAS/CLONE or restart after at least one CREATE; distinct = hash of the sequence of DDL kinds"
@@ -236,6 +236,10 @@ class MetaModel:
         self.tables: dict[tuple[str, str, str], dict[str, Any]] = {}
         self.views: dict[tuple[str, str, str], tuple[str, str, str]] = {}
         self.dbs: set[str] = set()
+        # a view's SELECT * is expanded when the view is created: its columns are the source's columns of that moment
+        self.view_cols: dict[tuple[str, str, str], list[list[Any]]] = {}
+        self.table_gen: dict[tuple[str, str, str], int] = {}
+        self.view_gen: dict[tuple[str, str, str], int] = {}
 
     def apply(self, op: dict[str, Any]) -> None:
         if op["k"] == "connect":
@@ -246,6 +250,8 @@ class MetaModel:
             return
         d = op["ddl"]
         fq = tuple(op["fq"]) if "fq" in op else None
+        if d in ("create_table", "drop_table", "ctas", "clone") or (d == "alter" and op.get("sub") == "rename_table"):
+            self.table_gen[fq] = self.table_gen.get(fq, 0) + 1  # type: ignore[index]
         if d == "create_table":
             self.tables[fq] = {"cols": [list(c) for c in op["cols"]], "comment": op["comment"], "pk": list(op.get("pk") or [])}  # type: ignore[index]
         elif d == "drop_table":
@@ -264,6 +270,8 @@ class MetaModel:
             self.tables[fq]["comment"] = op["comment"]  # type: ignore[index]
         elif d == "create_view":
             self.views[fq] = tuple(op["src"])  # type: ignore[index, assignment]
+            self.view_cols[fq] = [list(c) for c in self.tables[tuple(op["src"])]["cols"]]  # type: ignore[index]
+            self.view_gen[fq] = self.table_gen.get(tuple(op["src"]), 0)  # type: ignore[index, arg-type]
         elif d == "drop_view":
             self.views.pop(fq, None)  # type: ignore[arg-type]
         elif d in ("ctas", "clone"):
@@ -276,6 +284,7 @@ class MetaModel:
             self.schemas.discard(sc)  # type: ignore[arg-type]
             for t in [t for t in self.tables if t[:2] == sc]:
                 del self.tables[t]
+                self.table_gen[t] = self.table_gen.get(t, 0) + 1
             for v in [v for v in self.views if v[:2] == sc]:
                 del self.views[v]
 
@@ -451,6 +460,18 @@ def _observe(world: World, m: MetaModel, hz: dict[str, bool], step_kind: str, ob
                     info = TYPES[ty]
                     if info[0] == "NUMBER" and (r[2], r[3]) != (info[2], info[3]):
                         return v_(f"select-star-description/precision/{step_kind}", "precision and scale in the description of SELECT *", {"table": name, "column": c, "observed": r, "expected": [info[2], info[3]]})
+            # --- per view: DESCRIBE VIEW names the source's columns, in order, with their types (a declared VARCHAR length is not demanded of a view)
+            for vw in dbv:
+                src = m.views[vw]
+                if src not in m.tables or m.view_gen.get(vw) != m.table_gen.get(src, 0) or vw not in m.view_cols:
+                    continue  # the source was dropped or re-created since: what the view then shows is not constrained
+                got = q(cur, f"DESCRIBE VIEW {'.'.join(vw)}")
+                if isinstance(got, dict):
+                    return v_(f"observer-raises/describe-view/{step_kind}", "DESCRIBE VIEW failed for an existing view", got)
+                want = [[c, TYPES[ty][4] if TYPES[ty][0] != "TEXT" else "VARCHAR"] for c, ty, nn in m.view_cols[vw]]
+                obs = [[r[0], "VARCHAR" if str(r[1]).startswith("VARCHAR") else r[1]] for r in got]
+                if obs != want:
+                    return v_(f"describe-view/{'columns' if [r[0] for r in obs] != [r[0] for r in want] else 'type'}/{step_kind}", "DESCRIBE VIEW shows the columns of the view's source", {"view": ".".join(vw), "observed": obs, "expected": want})
         # --- account scope (from a session without a current database)
         cur = (fs.connect() if hz["account_scope_without_database"] else fs.connect(database=sorted(m.dbs)[0])).cursor()
         for show, rows_want in (("TABLES", [[t[2], "TABLE", t[0], t[1]] for t in sorted(m.tables)]), ("OBJECTS", [[t[2], "TABLE", t[0], t[1]] for t in sorted(m.tables)] + [[v[2], "VIEW", v[0], v[1]] for v in sorted(m.views)])):
